@@ -41,3 +41,23 @@ Proof.
   (destruct (first_diff A se tt 0) eqn:F; [discriminate|]); intros; eapply first_diff_none; eauto.
 Qed.
 End P.
+
+Section P2.
+Context {val : Type}.
+Variable A : valg val.
+
+Theorem judge2_agree_sound a sa b sb c i na nb e1 e2 :
+  judge2 A a sa b sb = (c, i, na, nb, e1, e2) -> c = 0 ->
+  forall k x y, nth_error a k = Some x -> nth_error b k = Some y -> ev_eqb A x y = true.
+Proof.
+  unfold judge2. intros H Hc. subst c.
+  destruct (first_diff A a b 0) eqn:F; [discriminate|]. intros; eapply first_diff_none; eauto.
+Qed.
+
+(* without function regions the guarded run is the plain run *)
+Theorem run_guard_no_regions O p fuel : forall s, run_guard A O p [] fuel s = run A O p fuel s.
+Proof.
+  induction fuel as [|k IH]; intros s; cbn [run_guard run]; [reflexivity|].
+  destruct (st s); try reflexivity. cbn [existsb]. rewrite andb_false_r. cbn. apply IH.
+Qed.
+End P2.
